@@ -22,6 +22,7 @@ Recorded ==
 
 Apply(e) ==
     CASE e.ev = "reset"   -> PReset
+      [] e.ev = "cfg"     -> PCfg(e.fine)
       [] e.ev = "call"    -> PCall(e.id, e.mode, SeqToSet(e.blk))
       [] e.ev = "ret"     -> PRet(e.id, e.res, e.nr, e.nw)
       [] e.ev = "relcall" -> PRelCall(e.id)
@@ -32,7 +33,7 @@ Apply(e) ==
       [] e.ev = "probe"   -> PProbe(e.ok)
       [] e.ev \in {"leak", "note", "end", "teardown", "step"} -> UNCHANGED pvars
       [] OTHER            -> /\ bad' = bad \cup {"Unexplained"}
-                             /\ UNCHANGED <<st, md, ahead, canc, rels, relin>>
+                             /\ UNCHANGED <<st, md, ahead, canc, rels, relin, fine, solo, passed, owed>>
 
 TStep ==
     /\ l <= Len(Trace)
